@@ -46,6 +46,10 @@ impl Compiler {
     }
 
     fn parse_precedence(&mut self, precedence: Precedence) -> Result<Expression> {
+        if self.current >= self.tokens.len() {
+            return Err(Error::Eof); // no operand left, e.g. a trailing prefix operator
+        }
+
         self.advance();
         let mut expression = self.do_prefix()?;
 
